@@ -442,20 +442,112 @@ theorem paddedLenWord_spec (len l : Nat) (hl : len ≤ U64_MAX) (h : paddedLenWo
     · simp only [h1, if_false, Option.some.injEq] at h
       omega
 
-/-- LDC mode 2 (copy from memory), FULL statement — correspondence-checked (stream `c36`, `ldc 2 …` lines) and
-evaluated by the harness oracle on the implementation, but not yet proved in Lean (see notes/C36.md). -/
-def ldcMemoryStatement : Prop :=
-  ∀ (v v' : Vm) (a b c : Nat), c > 0 → v.ssp ≤ v.mem.stackLen → v.mem.stackLen ≤ v.mem.hp →
-    (v.isInternal = true → satAdd v.fp codeSizeOffset + wordSize ≤ v.ssp) →
-    (satAdd a b + c ≤ v.mem.stackLen ∨ v.mem.hp ≤ satAdd a b) →
-    loadMemoryCode v a b c = .ok v' →
-    ∃ length, length = (paddedLenWord c).getD U64_MAX ∧ c ≤ length ∧
+/-- **LDC mode 2 (copy from memory)**: on success `$ssp/$sp` advance by the word-padded length, the new stack
+region holds the `c` source bytes (as they were before the instruction) followed by zero padding up to the word
+boundary, and `$pc` advances by 4. (`hinv`, `hframe`: VM invariants — the stack vector lies below the heap, the call
+frame below `$ssp`; `hsrc`: the source range was initialised memory.) -/
+theorem ldc_memory_spec (v v' : Vm) (a b c : Nat) (hc0 : c > 0)
+    (hinv : v.mem.stackLen ≤ v.mem.hp)
+    (hframe : v.isInternal = true → satAdd v.fp codeSizeOffset + wordSize ≤ v.ssp)
+    (hsrc : satAdd a b + c ≤ v.mem.stackLen ∨ v.mem.hp ≤ satAdd a b)
+    (h : loadMemoryCode v a b c = .ok v') :
+    ∃ length, length = (paddedLenWord c).getD U64_MAX ∧ c ≤ length ∧ v.ssp = v.sp ∧
       v'.ssp = v.ssp + length ∧ v'.sp = v'.ssp ∧ v'.pc = v.pc + 4 ∧
       v'.mem.slice v.ssp c = v.mem.slice (satAdd a b) c ∧
-      v'.mem.slice (v.ssp + c) (length - c) = List.replicate (length - c) 0
+      v'.mem.slice (v.ssp + c) (length - c) = List.replicate (length - c) 0 := by
+  unfold loadMemoryCode at h
+  by_cases hs : v.ssp ≠ v.sp
+  · simp [hs] at h
+  have hc0' : ¬ c = 0 := by omega
+  simp only [hs, if_false, hc0', bind, Except.bind] at h
+  generalize hlen : (paddedLenWord c).getD U64_MAX = length at h
+  cases hg : v.mem.growStack (satAdd v.ssp length) with
+  | error x => simp [hg] at h
+  | ok m1 =>
+    simp only [hg] at h
+    obtain ⟨g1, g2, g3, -, g5⟩ := growStack_ok hg
+    have g6 := growStack_le_hp hg hinv
+    have hsat := satAdd_le_ram g1
+    have hram : vmMaxRam = 67108864 := by decide
+    -- the padded length is a real padding (otherwise the stack could not have grown)
+    have hcl : c ≤ length ∧ length < c + 8 := by
+      cases hp : paddedLenWord c with
+      | none =>
+        rw [hp] at hlen; simp only [Option.getD_none] at hlen
+        unfold U64_MAX at hlen; omega
+      | some l =>
+        rw [hp] at hlen; simp only [Option.getD_some] at hlen; subst hlen
+        unfold paddedLenWord checkedAdd at hp
+        have hw : wordSize = 8 := rfl
+        simp only [hw] at hp
+        by_cases h0 : c % 8 = 0
+        · simp only [h0, if_true, Option.some.injEq] at hp; omega
+        · simp only [h0, if_false] at hp
+          split at hp
+          · cases hp
+          · simp only [Option.some.injEq] at hp; omega
+    cases hm : m1.memcopy v.ssp (satAdd a b) c (onlyStack (satAdd v.ssp length) v.ssp v.hp) with
+    | error x => simp [hm] at h
+    | ok m2 =>
+      simp only [hm] at h
+      obtain ⟨rfl, -, -⟩ := memcopy_ok hm
+      -- source bytes as of before the instruction
+      have hsrc1 : m1.slice (satAdd a b) c = v.mem.slice (satAdd a b) c := by
+        apply slice_congr
+        intro p h1 h2
+        apply g5
+        rcases hsrc with hh | hh
+        · left; omega
+        · right; rw [g2] at *; omega
+      have hlenS : (m1.slice (satAdd a b) c).length = c := slice_length _ _ _
+      have hsatc : satAdd v.ssp c = v.ssp + c := by
+        unfold satAdd U64_MAX
+        have : ¬ v.ssp + c > 2 ^ 64 - 1 := by omega
+        simp [this]
+      have hssp : v.ssp = v.sp := by omega
+      by_cases hpz : length - c > 0
+      · simp only [hpz, if_true] at h
+        cases hw : (m1.store v.ssp (m1.slice (satAdd a b) c)).writeRange (onlyStack (satAdd v.ssp length) v.ssp v.hp) (satAdd v.ssp c) (length - c) with
+        | error x => simp [hw] at h
+        | ok r =>
+          obtain ⟨s, e⟩ := r
+          obtain ⟨hv, -⟩ := writeRange_ok hw
+          obtain ⟨hs1, he1, -, -⟩ := verify_ok hv
+          rw [hsatc] at hs1 he1
+          simp only [hw, pure, Except.pure] at h
+          have hes : e - s = length - c := by omega
+          rw [hes, hs1] at h
+          cases hb : bumpCodeSize v ((m1.store v.ssp (m1.slice (satAdd a b) c)).store (v.ssp + c) (List.replicate (length - c) 0)) length with
+          | error x => simp [hb] at h
+          | ok m4 =>
+            simp only [hb] at h
+            cases h
+            refine ⟨length, rfl, hcl.1, hssp, hsat, rfl, rfl, ?_, ?_⟩
+            · rw [bump_preserves hb hframe _ _ (Nat.le_refl _)]
+              rw [slice_store_disjoint _ _ _ _ _ (Or.inl (Nat.le_refl _))]
+              have := slice_store_same m1 v.ssp (m1.slice (satAdd a b) c)
+              rw [hlenS] at this
+              rw [this, hsrc1]
+            · rw [bump_preserves hb hframe _ _ (by omega)]
+              have := slice_store_same (m1.store v.ssp (m1.slice (satAdd a b) c)) (v.ssp + c) (List.replicate (length - c) 0)
+              rw [List.length_replicate] at this
+              exact this
+      · simp only [hpz, if_false, pure, Except.pure] at h
+        cases hb : bumpCodeSize v (m1.store v.ssp (m1.slice (satAdd a b) c)) length with
+        | error x => simp [hb] at h
+        | ok m4 =>
+          simp only [hb] at h
+          cases h
+          have hz : length - c = 0 := by omega
+          refine ⟨length, rfl, hcl.1, hssp, hsat, rfl, rfl, ?_, ?_⟩
+          · rw [bump_preserves hb hframe _ _ (Nat.le_refl _)]
+            have := slice_store_same m1 v.ssp (m1.slice (satAdd a b) c)
+            rw [hlenS] at this
+            rw [this, hsrc1]
+          · rw [hz, slice_zero]; rfl
 
-/-- proved part of `ldcMemoryStatement`: the zero-length case is a no-op apart from `$pc`, and the stack must be unallocated -/
-theorem ldc_memory_partial (v : Vm) (a b c : Nat) :
+/-- LDC mode 2: the stack must be unallocated, and a zero length is a no-op apart from `$pc` -/
+theorem ldc_memory_guards (v : Vm) (a b c : Nat) :
     (v.ssp ≠ v.sp → loadMemoryCode v a b c = .error .ExpectedUnallocatedStack) ∧
     (v.ssp = v.sp → c = 0 → loadMemoryCode v a b c = .ok { v with pc := v.pc + 4 }) := by
   unfold loadMemoryCode
